@@ -13,6 +13,7 @@ import (
 
 	"github.com/hack-pad/hackpadfs"
 	"github.com/hack-pad/hackpadfs/mount"
+	hos "github.com/hack-pad/hackpadfs/os"
 	"pgregory.net/rapid"
 
 	"verifharness/internal/gen"
@@ -109,6 +110,19 @@ func newMachine(h Header) (*machine, string) {
 	}
 	if err != nil {
 		return m, fmt.Sprintf("Sub(%q) of an existing directory failed: %v", h.Dir, err)
+	}
+	if o, ok := m.w1.parent.(*hos.FS); ok {
+		base, _ := o.ToOSPath(".")
+		want := base
+		if h.Dir != "." {
+			want = strings.TrimSuffix(base, "/") + "/" + h.Dir
+		}
+		if v, ok := m.view.(*hos.FS); ok {
+			if got, err := v.ToOSPath("."); err != nil || strings.TrimSuffix(got, "/") != strings.TrimSuffix(want, "/") {
+				// never run operations through a view that points outside the scratch directory
+				return m, fmt.Sprintf("Sub(%q) of an os.FS rooted at %s is rooted at %s", h.Dir, base, got)
+			}
+		}
 	}
 	return m, ""
 }
